@@ -233,6 +233,7 @@ pub fn check_step(c: &StepCtx, h: &mut Hist, st: &mut Stats, out: &mut Vec<Viol>
             };
             let side = if kind == "create_ask" { "ask" } else { "bid" };
             st.eval("C07", format!("{}|{}|{}|p{}", side, v.class(), c.out.tag(), cfg.prec.min(19)));
+            st.sample("C07", || json!({"request": msg, "sender": sender, "funds": funds.iter().map(|f| json!([f.0, f.1.to_string()])).collect::<Vec<_>>(), "oracle": v.class(), "observed": c.out.tag()}), 3);
             if accepted && !v.exact_ok {
                 viol(out, "C07", "admission", &format!("inadmissible {} accepted: {}", side, v.reason), format!("request {} by {} with funds {:?}", msg, sender, funds));
             }
@@ -244,6 +245,7 @@ pub fn check_step(c: &StepCtx, h: &mut Hist, st: &mut Stats, out: &mut Vec<Viol>
             let (v, _) = match_verdict(cfg, &c.pre_book, sender, funds, body);
             let form = body.get("price").and_then(|p| p.as_str()).map_or("?", |p| if p.starts_with('0') && p.len() > 1 && !p.starts_with("0.") { "lead0" } else if p.contains('.') && p.ends_with('0') { "trail0" } else { "plain" });
             st.eval("C03", format!("{}|{}|{}", v.class(), c.out.tag(), form));
+            st.sample("C03", || json!({"request": msg, "sender": sender, "oracle": v.class(), "observed": c.out.tag()}), 3);
             if accepted && !v.exact_ok {
                 viol(out, "C03", "eligibility", &format!("ineligible match accepted: {}", v.reason), format!("request {} by {}", msg, sender));
             }
@@ -358,6 +360,7 @@ fn check_c10(c: &StepCtx, kind: &str, sender: &str, xfers: &[Xfer], st: &mut Sta
                 }
                 let (denom, amount) = &coins[0];
                 st.eval("C10", format!("{}|bank|{}|all:{}", kind, marker_of(c.pre, denom).name(), kinds));
+                st.sample("C10", || json!({"request_kind": kind, "message": x.to_json(), "marker_table": c.pre.chain.markers.iter().map(|(d, k)| json!([d, k.name()])).collect::<Vec<_>>()}), 3);
                 if restricted(c.pre, denom) {
                     viol(out, "C10", "mechanism", "bank send of a restricted-marker denomination", format!("{} msg#{} sends {}{} to {} by bank; marker table {:?}", kind, i, amount, denom, to, c.pre.chain.markers));
                 }
@@ -426,6 +429,7 @@ fn check_c11(c: &StepCtx, cfg: &Cfg, kind: &str, body: &Value, st: &mut Stats, o
         }
     }
     st.eval("C11", format!("{}|others:{}|touched:{}", kind, others.min(12), touched.len()));
+    st.sample("C11", || json!({"request_kind": kind, "named": {"asks": named_asks, "bids": named_bids}, "entries_changed": touched, "other_orders_on_book": others}), 3);
     let ci = (c.pre.store.data.get(b"contract_info".as_slice()), c.post.store.data.get(b"contract_info".as_slice()));
     if kind != "modify_contract" && ci.0 != ci.1 {
         viol(out, "C11", "book-diff", &format!("{} changed the configuration", kind), format!("{:?} -> {:?}", ci.0.map(|v| String::from_utf8_lossy(v).to_string()), ci.1.map(|v| String::from_utf8_lossy(v).to_string())));
@@ -500,6 +504,7 @@ fn check_c12(c: &StepCtx, cfg: &Cfg, kind: &str, body: &Value, st: &mut Stats, o
     let bs = format!("{}{}", if c.pre_book.n_asks() > 0 { "A" } else { "-" }, if c.pre_book.n_bids() > 0 { "B" } else { "-" });
     st.eval("C12", format!("accepted|{}|{}", mask, bs));
     st.count("C12", "accepted_modifications");
+    st.sample("C12", || json!({"request": body, "book": bs, "config_before": format!("{:?}", cfg), "config_after": format!("{:?}", after)}), 3);
     for v in modify_violations(cfg, after, &c.pre_book, body) {
         let sig = v.split(':').next().unwrap_or("").to_string();
         viol(out, "C12", "config-rules", &sig, format!("{} ; request {} ; before {:?}", v, body, cfg));
@@ -614,6 +619,7 @@ fn step_approve(c: &StepCtx, cfg: &Cfg, body: &Value, sender: &str, funds: &[(St
     st.count("C08", "accepted_approvals");
     let pre_class = c.pre_book.asks.get(&id).map_or("absent", |a| a.class.name());
     st.eval("C08", format!("approve|pre:{}|{}", pre_class, marker_sig(c.pre, &[&cfg.base])));
+    st.sample("C08", || json!({"accepted_approval": body, "sender": sender, "ask_before": c.pre_book.asks.get(&id).map(|a| a.raw.clone()), "ask_after": c.post_book.asks.get(&id).map(|a| a.raw.clone())}), 3);
     if let Err(e) = approve_conditions(c.pre, cfg, &c.pre_book, sender, funds, body) {
         viol(out, "C08", "approval", &format!("approval accepted although {}", e.split(' ').take(4).collect::<Vec<_>>().join(" ")), format!("{} ; request {} by {} funds {:?}", e, body, sender, funds));
     }
@@ -1160,6 +1166,7 @@ fn check_c17(c: &StepCtx, cfg: &Cfg, kind: &str, body: &Value, attrs: &[(String,
         _ => {}
     }
     st.eval("C17", format!("{}|{}", kind, class));
+    st.sample("C17", || json!({"request_kind": kind, "attributes": attrs.iter().map(|a| json!([a.0, a.1])).collect::<Vec<_>>()}), 3);
     // attribute-driven shadow book (offline checker over the history; sees attributes only)
     if h.shadow_live {
         match h.shadow.apply(attrs) {
@@ -1276,6 +1283,9 @@ pub fn check_state(w: &World, book: &Book, cfg: Option<&Cfg>, h: &mut Hist, st: 
                 let (_, tie) = prorata(*fa, rq, q);
                 st.eval("C09", format!("held|after:{}|F%7:{}|tie:{}|zero:{}|full:{}", kind, fa % 7, tie, hf == 0, rq == q));
                 if tie {
+                    st.sample("C09", || json!({"after": kind, "original_fee": fa.to_string(), "unspent_quote": rq.to_string(), "original_quote": q.to_string(), "held_fee": hf.to_string(), "admissible": set.iter().map(|x| x.to_string()).collect::<Vec<_>>(), "exact_value_is_a_half_unit_tie": true}), 3);
+                }
+                if tie {
                     st.count("C09", "held_fee_ties");
                 }
                 if !set.contains(&hf) {
@@ -1319,6 +1329,9 @@ pub fn check_state(w: &World, book: &Book, cfg: Option<&Cfg>, h: &mut Hist, st: 
     }
     st.books.insert(fnv(&hasher));
     st.count("C01", "states_checked");
+    if book.asks.len() + book.bids.len() >= 3 {
+        st.sample("C01", || json!({"after": kind, "open_asks": book.asks.len(), "open_bids": book.bids.len(), "owed_per_denomination": owed.iter().map(|(d, v)| json!([d, v.to_string()])).collect::<Vec<_>>(), "contract_holdings": w.ledger.iter().filter(|(k, _)| k.0 == CONTRACT).map(|(k, v)| json!([k.1, v.to_string()])).collect::<Vec<_>>()}), 3);
+    }
 }
 
 /// end-of-history drain (C01): cancel everything on a copy; the contract must end with exactly nothing
